@@ -71,6 +71,7 @@ type Interp struct {
 	inInit   bool
 	atoms    []Atom // recorded predicate atoms (differential mode)
 	invMemo   map[string]*Term
+	bigVals   map[*Obj]*Term
 	noSummary bool  // set while running a harness whose name says it validates a summary
 	curFn    []string
 }
